@@ -199,6 +199,11 @@ class Report:
         self.coverage = {}
         self.notes = []
 
+    def unknown_findings(self):
+        """findings that are not recorded known findings"""
+        known = load_known()
+        return [f for f in self.findings if f.known_entry(known) is None]
+
     def finish(self):
         known = load_known()
         out_lines = []
